@@ -12,12 +12,14 @@ SPEC = dict(
                 "SendStream). Proved for ALL inner sinks (arbitrary state machines = every readiness pattern) and ALL client call sequences "
                 "that honour the Sink contract: map_delivers_in_order, filter_delivers_in_order, filterMap_delivers_in_order, inspect_trace, "
                 "flatMap_delivers_in_order / flatten_delivers_in_order (inner contract kept, received ++ buffered = flattening, never hits the "
-                "'Sink not ready' assert, empty buffer after a Ready flush/close), unzip_routes_in_order, "
+                "'Sink not ready' assert, empty buffer after a Ready flush/close), unzip_routes_in_order, demuxVar_routes_in_order, "
+                "demuxMap_routes_in_order (each sink gets exactly the items addressed to its index/key, in order, once, contract kept), "
                 "lazySink_no_item_lost_init_once (inner contract kept, no item lost before/during init, init at most once, 'not ready' panic "
-                "unreachable), sendIter_is_polite_client. Refuted on the code as it is (known findings): "
+                "unreachable), lssSink_simulates_lazySink (the sink half of LazySinkSource = LazySink as long as the source half does not interfere), "
+                "lazySource_yields_stream_in_order, sendIter_is_polite_client, sendStream_is_polite_client. Refuted on the code as it is (known findings): "
                 "lazySinkSource_send_after_ready_refuted (F4), lazySinkSource_inner_contract_refuted (F4b), lazyDemux_send_after_ready_refuted "
-                "(F5). NOT proved, only modelled and tied by correspondence + oracle: demux_var, demux_map, demux_map_lazy for existing keys, "
-                "LazySinkSource when the source half does not interfere, LazySource, SendStream, stacked chains (the theorems are compositional "
+                "(F5). NOT proved, only modelled and tied by correspondence + oracle: demux_map_lazy for existing keys, "
+                "LazySinkSource under arbitrary interleavings of the two halves after initialisation, for_each/try_for_each (trivial), stacked chains (the theorems are compositional "
                 "in form but the composite statement is not derived). Tie: 16 pipeline kinds built with the real SinkBuild API over scripted "
                 "downstream sinks; each client call's answer and every downstream call (ready/send/flush/close with answers) are diffed "
                 "against the compiled model; downstream sinks check the contract themselves; order / exactly-once / no-loss-after-flush / "
